@@ -4,7 +4,7 @@ use super::iff;
 use crate::gen;
 use crate::model::{self, Ty};
 use crate::mon::{scale, Check, Ctx, Phase, Tier};
-use crate::rcbor::Item;
+use crate::rcbor::{self, Item};
 
 pub struct C10;
 const SALT: u64 = 0xC10_BA5E;
@@ -82,6 +82,27 @@ impl Check for C10 {
                     let pos = ctx.rng.below(m.len() + 1);
                     let ops = ops_variant(ctx);
                     m.insert(pos, (Item::Int(4), ops));
+                }
+                if ctx.rng.chance(1, 6) {
+                    // several text labels in scattered order, one of them repeated somewhere
+                    let mut names = vec!["a", "b", "c", "aa", "zz", "kid", "1", ""];
+                    ctx.rng.shuffle(&mut names);
+                    let n = 2 + ctx.rng.below(4);
+                    for t in names.iter().take(n) {
+                        let pos = ctx.rng.below(m.len() + 1);
+                        m.insert(pos, (Item::text(t), gen::random_item(&mut ctx.rng, 1)));
+                    }
+                    if ctx.rng.chance(3, 4) {
+                        let pos = ctx.rng.below(m.len() + 1);
+                        m.insert(pos, (Item::text(names[ctx.rng.below(n)]), Item::Null));
+                    }
+                }
+                if ctx.rng.chance(1, 30) {
+                    // a parameter value nested deeply (well inside every parser's limit)
+                    let d = 100 + ctx.rng.below(101);
+                    let nested = rcbor::decode(&crate::hostile::b4_nested(d, (d % 3) as u8)).unwrap_or(Item::Null);
+                    let pos = ctx.rng.below(m.len() + 1);
+                    m.insert(pos, (Item::int(-70020), nested));
                 }
                 if ctx.rng.chance(1, 3) {
                     let pos = ctx.rng.below(m.len() + 1);
